@@ -54,6 +54,10 @@ type SCase struct {
 	Opened bool    `json:"opened"`
 	Post   []Op    `json:"post"`
 	Real   bool    `json:"real"` // the image is a snapshot taken at a commit (not assembled)
+	// kind 4: an ordinary crash image (after the first NP ops of the history,
+	// inside Cop) reopened with an assertion that must not trigger
+	NP  int `json:"np,omitempty"`
+	Cop *Op `json:"cop,omitempty"`
 }
 
 const (
@@ -671,6 +675,11 @@ func scaseTerm(cs *SCase, prefix []Op) string {
 	if cs.AH >= 0 {
 		as = c.Some(c.Pair(c.Z(cs.AH), c.Z(cs.AV)))
 	}
-	return fmt.Sprintf("{| sid := %d; skind := %d; sprefix := %s; sfilter := %s; sassert := %s; sk := %d; storn := %s; swith := %s; skinds := %s; sopened := %s; spost := %s |}",
-		cs.ID, cs.Kind, trace(prefix), c.Bool(cs.Filter), as, cs.K, torn, c.Bool(cs.With), c.Ints(cs.Kinds), c.Bool(cs.Opened), trace(cs.Post))
+	cop := "QBTip"
+	if cs.Kind == 4 {
+		prefix = prefix[:cs.NP]
+		cop = storeh.OpTerm(cs.Cop)
+	}
+	return fmt.Sprintf("{| sid := %d; skind := %d; sprefix := %s; scop := %s; sfilter := %s; sassert := %s; sk := %d; storn := %s; swith := %s; skinds := %s; sopened := %s; spost := %s |}",
+		cs.ID, cs.Kind, trace(prefix), cop, c.Bool(cs.Filter), as, cs.K, torn, c.Bool(cs.With), c.Ints(cs.Kinds), c.Bool(cs.Opened), trace(cs.Post))
 }
